@@ -156,6 +156,9 @@ def gen_tables(ctx):
             [pair(coq_str(k), coq_str(v)) for k, v in m._CONTENT_TYPE_MAP.items()]) + ".\n"
     t += "Definition resolver_sites : list (str * bool) := " + coq_list(
         [pair(coq_str(k), coq_bool(v)) for k, v in sites.items()]) + ".\n"
+    from sharepoint2text.parsing.extractors.pdf import pdf_extractor as pdfx
+    t += "Definition pdf_ctmap : list (str * str) := " + coq_list(
+        [pair(coq_str(k), coq_str(v)) for k, v in pdfx.FILTER_TO_CONTENT_TYPE.items()]) + ".\n"
     t += "Definition zip_lookup_sites : list (str * bool) := " + coq_list(
         [pair(coq_str(k), coq_bool(v)) for k, v in zip_lookup_sites().items()]) + ".\n"
     t += f"Definition sig_png : list Z := {zl(pick(lambda c: c.startswith(bytes([0x89]) + b'PNG')))}.\n"
@@ -408,12 +411,29 @@ def gen_spec(ctx, fmt, idx):
         spec["opf"] = rng.choice(["OEBPS/content.opf", "OEBPS/content.opf", "OEBPS/pkg/content.opf", "content.opf"])
     if fmt == "pptx":
         spec["same_pos"] = rng.random() < 0.25
+        # slide part numbers, sldId ids and relationship ids say nothing about the slide order
+        if rng.random() < 0.4:
+            spec["slide_files"] = rng.sample(range(1, nunits + 3), nunits)
+        if rng.random() < 0.4:
+            spec["slide_rids"] = [f"rId{x}" for x in rng.sample(range(1, 30), nunits)]
+        if rng.random() < 0.4:
+            spec["slide_ids"] = rng.sample(range(256, 300), nunits)
+        spec["pres_rels_reversed"] = rng.random() < 0.3
     if fmt == "xlsx":
         files = list(range(1, nunits + 1))
         if rng.random() < 0.15:
             rng.shuffle(files)
         spec["sheet_files"] = files
         spec["drawing_style"] = rng.choice(["parent1", "parent1", "abs"])
+        # workbook identifiers are identifiers, not positions: sheetId permuted / with gaps / not starting at 1,
+        # relationship ids in any order, relationships part in any order
+        r_ = rng.random()
+        if r_ < 0.5:
+            ids_ = rng.sample(range(1, nunits + 4), nunits) if r_ < 0.35 else [7 + 2 * j for j in range(nunits)]
+            spec["sheet_ids"] = ids_
+        if rng.random() < 0.4:
+            spec["sheet_rids"] = [f"rId{x}" for x in rng.sample(range(1, 30), nunits)]
+        spec["wb_rels_reversed"] = rng.random() < 0.3
     ridn = 0
     for u in range(1, nunits + 1):
         unit = []
@@ -508,6 +528,10 @@ def check_spec(ctx, spec, doc, units, replay):
     got_ids = [by_sha.get(o["sha"]) for o in doc]
     # completeness / bit-exactness, per placement (on its unit for page/slide/sheet formats)
     per_unit = fmt in UNIT_FORMATS
+    attr_sub = ""
+    if fmt == "xlsx":
+        conventional = spec.get("sheet_files") == list(range(1, len(spec["units"]) + 1))
+        attr_sub = ":conventional-part-names" if conventional else ":sheet-part-numbers-differ-from-positions"
     unit_ids = [[by_sha.get(o["sha"]) for o in u] for u in units] if per_unit else [got_ids]
     want_sets = [{pl["m"] for pl in u} for u in placed] if per_unit else [placed_media]
     for uno, u in enumerate(placed, 1):
@@ -517,7 +541,7 @@ def check_spec(ctx, spec, doc, units, replay):
                 continue
             elsewhere = per_unit and any(pl["m"] in ids and pl["m"] not in want_sets[v] for v, ids in enumerate(unit_ids) if v != uno - 1 and v < len(want_sets))
             if elsewhere:
-                F(f"{fmt}-unit-attribution", f"the image placed on unit {uno} ({media[pl['m']]['part']}) is returned on another unit "
+                F(f"{fmt}-unit-attribution{attr_sub}", f"the image placed on unit {uno} ({media[pl['m']]['part']}) is returned on another unit "
                   f"(sheet files {spec.get('sheet_files')})")
             else:
                 F(f"{fmt}-image-lost:{pl['style']}" + (f":twin-{pl['twin']}" if pl.get("twin") else ""),
@@ -569,7 +593,7 @@ def check_spec(ctx, spec, doc, units, replay):
         for uno, ids in enumerate(unit_ids, 1):
             extra_here = sorted({g for g in ids if g is not None} - (want_sets[uno - 1] if uno - 1 < len(want_sets) else set()))
             if extra_here:
-                F(f"{fmt}-unit-attribution", f"unit {uno} holds images {extra_here} which the document does not place on it "
+                F(f"{fmt}-unit-attribution{attr_sub}", f"unit {uno} holds images {extra_here} which the document does not place on it "
                   f"(sheet files {spec.get('sheet_files')})")
             for o in units[uno - 1]:
                 if o["unit"] is not None and o["unit"] != uno:
@@ -684,12 +708,22 @@ def pdfs(ctx):
     from sharepoint2text.parsing.extractors.pdf.pdf_extractor import read_pdf
     rng = ctx.rng
     cases, info = [], []
+    ct_cases, ct_info = [], []
     for idx in range(ctx.n(30, 250)):
         nimg = rng.randint(1, 4)
         images = []
         for i in range(nimg):
             w, h = rng.randint(1, 300), rng.randint(1, 300)
-            images.append({"data": Wr.jpeg(w, h, idx * 5 + i, app_segments=rng.randint(0, 2)) + b"#pdf%d.%d" % (idx, i), "w": w, "h": h})
+            # how the XObject stores the picture: a single /DCTDecode name, a one-element array, filter chains with
+            # Flate / ASCIIHex / ASCII85 / RunLength stages in front of the JPEG, /Filter as an indirect reference;
+            # "flate-raw" = 8-bit gray samples behind /FlateDecode (no embedded file) — LZW, JPX, CCITT, JBIG2 not sampled
+            enc = rng.choice(["dct"] * 4 + [e for e in Wr.PDF_ENCODINGS if e != "dct"])
+            if enc == "flate-raw":
+                w, h = rng.randint(1, 12), rng.randint(1, 12)
+                payload = bytes((idx + i + 3 * k) & 0xFF for k in range(w * h))
+            else:
+                payload = Wr.jpeg(w, h, idx * 5 + i, app_segments=rng.randint(0, 2)) + b"#pdf%d.%d" % (idx, i)
+            images.append({"data": payload, "w": w, "h": h, "enc": enc, "filter_indirect": rng.random() < 0.15})
         npages = rng.randint(1, 5)
         pages = [[rng.randrange(nimg) for _ in range(rng.choice([0, 1, 1, 2, 3]))] for _ in range(npages)]
         if rng.random() < 0.5:                         # a logo: one XObject on every page
@@ -697,8 +731,12 @@ def pdfs(ctx):
             pages = [[logo] + p if rng.random() < 0.9 else p for p in pages]
         data = Wr.build_pdf(images, pages)
         by_sha = {sha(m["data"]): i for i, m in enumerate(images)}
-        replay = {"format": "pdf", "package": data, "pages": pages, "images": [{"w": m["w"], "h": m["h"], "sha256": sha(m["data"])} for m in images]}
-        ctx.case(("pdf", pages, [(m["w"], m["h"]) for m in images]), any(pages), kind="pdf:" + ("shared" if any(
+        replay = {"format": "pdf", "package": data, "pages": pages,
+                  "images": [{"w": m["w"], "h": m["h"], "sha256": sha(m["data"]), "stored_as": m["enc"],
+                              "filter_is_indirect_reference": m["filter_indirect"]} for m in images]}
+        for m in images:
+            ctx.count("pdf-image:" + m["enc"] + ("/indirect" if m["filter_indirect"] else ""))
+        ctx.case(("pdf", pages, [(m["w"], m["h"], m["enc"], m["filter_indirect"]) for m in images]), any(pages), kind="pdf:" + ("shared" if any(
             i in q for k, p_ in enumerate(pages) for i in p_ for q in pages[k + 1:]) else "plain"))
         F = lambda key, what: ctx.finding(key, "PDF: " + what, replay)
         try:
@@ -721,8 +759,21 @@ def pdfs(ctx):
                 if md.get("unit_number") != k:
                     F("pdf-unit-number", f"an image drawn on page {k} is attributed to page {md.get('unit_number')} "
                       f"(XObject Im{i + 1}, pages drawing it: {[q + 1 for q, p_ in enumerate(pages) if i in p_]})")
-                if ct != "image/jpeg":
-                    F("pdf-content-type", f"content type {ct!r} for a DCTDecode image")
+                im = images[i]
+                if not im["filter_indirect"]:
+                    fl = ["/" + f for f in Wr.PDF_ENCODINGS[im["enc"]]]
+                    ct_cases.append(f"({coq_list([coq_str(f) for f in fl])}, {coq_str(ct)})")
+                    ct_info.append((fl, ct))
+                chain = "[" + " ".join("/" + f for f in Wr.PDF_ENCODINGS[im["enc"]]) + "]"
+                if im["enc"] == "flate-raw":
+                    if ct in ("image/png", "image/jpeg", "image/gif", "image/bmp", "image/tiff"):
+                        F("pdf-content-type:raw-samples", f"{len(b)} bytes of raw gray samples (XObject /Filter /FlateDecode) are returned "
+                          f"with content type {ct!r}; the bytes are no file of that type")
+                elif ct != "image/jpeg":
+                    ind = im["filter_indirect"] and im["enc"] != "dct"
+                    F(f"pdf-content-type:{'indirect-filter-array' if ind else im['enc']}:{ct}",
+                      f"content type {ct!r} for an embedded JPEG stored with /Filter {chain}"
+                      + (" written as an indirect reference" if im["filter_indirect"] else "") + " (bytes are returned bit-exact)")
                 if (md.get("width"), md.get("height")) != (images[i]["w"], images[i]["h"]):
                     F("pdf-dimensions", f"width/height {(md.get('width'), md.get('height'))}, the XObject declares {(images[i]['w'], images[i]['h'])}")
             if [md.get("image_number") for _, _, md in got] != list(range(1, len(got) + 1)):
@@ -746,6 +797,13 @@ def pdfs(ctx):
     ctx.disagreements += len(failing)
     ctx.obligation("correspondence:pdf pages (XObjects drawn, per-page numbering) == implementation on generated PDFs", ok and not failing,
                    (f"{len(failing)} disagreements, first pages: {info[failing[0]] if failing else ''} " + log)[:1200])
+    ok2, f2, log2 = coq_eval_shards(
+        ctx, "pdfct", "From Coq Require Import List.\nImport ListNotations.\nFrom S2T Require Import Lib.PyStr C14.Model C14.Corr Gen.C14Tables.\n",
+        "(corr_pdf_ctype pdf_ctmap)", ct_cases, shard=500, ty="list str * str")
+    ctx.traces += len(ct_cases)
+    ctx.disagreements += len(f2)
+    ctx.obligation("correspondence:pdf content type == table[last stage of the /Filter chain]", ok2 and not f2,
+                   (f"{len(f2)} disagreements, first: {ct_info[f2[0]] if f2 else ''} " + log2)[:1000])
     ctx.extra["pdf_cases"] = len(cases)
 
 
@@ -835,9 +893,9 @@ def run(ctx):
         "C14_resolve_names_a_part", "C14_sniff_total", "C14_sniff_png", "C14_sniff_gif", "C14_sniff_bmp", "C14_sniff_jpeg",
         "C14_image_numbers", "C14_running_numbers", "C14_restart_numbers_refuted", "C14_ods_numbers_refuted",
         "C14_views_coincide", "C14_unit_content_in_document", "C14_xlsx_views", "C14_docx_unit_images_in_document",
-        "C14_odf_href_legacy_refuted", "C14_odf_href_legacy_partial", "C14_odf_href_resolved", "C14_sniff_jpeg_util", "C14_member_lookup_exact"])
+        "C14_odf_href_legacy_refuted", "C14_odf_href_legacy_partial", "C14_odf_href_resolved", "C14_sniff_jpeg_util", "C14_member_lookup_exact", "C14_pdf_codec_is_last_stage"])
     ctx.prove("C14/Inst.v", ["Gen/C14Tables.vo", "C14/Corr.vo"], expected=[
-        "C14_sof_markers_match", "C14_content_types_match", "C14_signatures_match", "C14_anchor_order"])
+        "C14_sof_markers_match", "C14_content_types_match", "C14_signatures_match", "C14_anchor_order", "C14_pdf_dct_is_jpeg"])
     ctx.prove("C14/InstSites.v", ["Gen/C14Tables.vo"], expected=["C14_resolver_sites", "C14_zip_lookup_exact"])
     corr_resolve(ctx)
     corr_sniff(ctx)
